@@ -150,6 +150,20 @@ Theorem C13_remove_by_body_account_partial : forall m t c,
 Proof. exact remove_by_body_account_partial. Qed.
 Print Assumptions C13_remove_by_body_account_partial.
 
+(** Eviction interrupted by its work timeout: the timer is consulted once per account, so a pass
+    has evicted some of the old accounts completely; every such partial pass keeps the invariant.
+    A pass that could stop inside one account's list would not (refuted variant). *)
+Theorem C13_evict_interrupted_inv : forall U m accs k,
+  PoolInv (pl m) -> pool_in U (pl m) ->
+  PoolInv (pl (evict m (firstn k accs))) /\ pool_in U (pl (evict m (firstn k accs))).
+Proof. exact evict_interrupted_inv. Qed.
+Print Assumptions C13_evict_interrupted_inv.
+
+Theorem C13_evict_midlist_refuted :
+  exists m a k, PoolInv (pl m) /\ ~ PoolInv (pl (evict_midlist m a k)).
+Proof. exact evict_midlist_refuted. Qed.
+Print Assumptions C13_evict_midlist_refuted.
+
 (** Atomicity of the modelled steps: every write of mp.pool / mp.length / mp.orphan /
     mp.cache / tl.list / tl.ready / tl.base found in the source by gen/gen_locks.go runs
     under the exclusive pool (or list) lock, except the listed getUnconfirmed insertion. *)
